@@ -25,7 +25,7 @@ var e1Rules = map[string][3]string{
 	"C05": {"live plans without ECH / TLS 1.2-only / through HRR, scripted plans with a plain, GREASE or undecryptable hello plus an arbitrary record stream; non-trivial = bytes compared in both directions; distinct = (hello family, sizes, chunking, outcome)",
 		"", "tls_stack_view_compared,passthrough_hrr_second_hello"},
 	"C06": {"one accepted first hello followed by an interleaving of <= 12 client / backend records (sequential on one goroutine, or with the read pump parked in Conn.Read over simnet; backend records optionally joined into one Write); non-trivial = compared record by record with the model; distinct = the sequence of (side, kind, joined) plus mode",
-		"", "hrr_armed,retry_processed,hello_without_hrr_or_late,concurrent_history,several_records_per_write"},
+		"", "hrr_armed,retry_processed,hello_without_hrr_or_late,concurrent_history,several_records_per_write,write_returns_after_next_read"},
 	"C07": {"one bidirectional stream (recorded from a live handshake or synthetic) replayed under one enumerated dimension; an evaluation = one fresh Conn over the stream; distinct = per cut: (kind, record index, record type, rewritten or not, position class within the record)",
 		"transport cut (EOF / error, on its own Read or with the last bytes) at every byte offset of the client stream; write error at every offset and every single split point of the backend stream (stride 7/11 for streams with > 16 KB records); 10 chunkings x 7 read-buffer sizes, incl. two interleaved connections", "cut_in_first_record,cut_mid_stream,two_connections_interleaved,hrr_stream"},
 	"C08": {"stall plans: every offset of one first record; hostile plans: one mutated first record plus hostile record streams on both sides; non-trivial = all monitors evaluated; distinct = per stall offset (region, window, lateness) resp. (mutation kinds, item kinds, outcome)",
